@@ -291,8 +291,8 @@ func (g *gen) lifecycle() {
 			}
 		}
 		// the new client / consensus state are what the builder would create the client with
-		sctx, _ := g.e.c.Ctx().CacheContext()
-		se := &env{c: g.e.c, ctx: sctx}
+		sctx, _ := baseChain().Ctx().CacheContext() // the base chain never holds clients itself
+		se := &env{c: baseChain(), ctx: sctx}
 		se.create(np, 100+i, g.tss.Acc)
 		ncs, _ := se.ck().GetClientState(sctx, p.Name)
 		var ncons exported.ConsensusState = &tssCons
@@ -657,9 +657,8 @@ func typeMix(cs []*clientPlan) string {
 	return strings.Join(out, "+")
 }
 
-func runRoundTrip(t *rapid.T, r *rec.Recorder) {
-	c := baseChain()
-	ctx, _ := c.Ctx().CacheContext()
+// buildState draws a state and builds it on (c, ctx).
+func buildState(t *rapid.T, r *rec.Recorder, c *kit.Chain, ctx sdk.Context) *gen {
 	g := &gen{t: t, r: r, e: &env{c: c, ctx: ctx}, tss: kit.NewAccount([]byte("c13-tss")), byName: map[string]*clientPlan{}, cl: classes{},
 		sent: map[string][]packettypes.Packet{}, seenRcv: map[string]bool{}}
 	g.buildClients()
@@ -671,21 +670,24 @@ func runRoundTrip(t *rapid.T, r *rec.Recorder) {
 	g.packets()
 	g.registry()
 	g.params()
+	return g
+}
 
-	tol := tolerance{
+func (g *gen) tolerance() tolerance {
+	return tolerance{
 		ethValidate: g.ethCons && listed(keyEthConsType),
 		tmIterKeys:  listed(keyTMIterKeys),
 		count: func(key string, n int) {
 			for i := 0; i < n; i++ {
-				r.Exclude(key)
+				g.r.Exclude(key)
 			}
 		},
 	}
-	gj, v := roundTrip(c, ctx, freshChain(), tol)
-	if v != nil {
-		t.Fatalf("%s\nstate:\n  %s", v, strings.Join(g.log, "\n  "))
-	}
+}
 
+// record files the case into the evidence.
+func (g *gen) record(gj map[string]json.RawMessage) {
+	r := g.r
 	mix := typeMix(g.clients)
 	types := strings.Count(mix, "+") + 1
 	nontrivial := types >= 2 && g.hostile >= 1 && g.packetKeys >= 1
@@ -711,6 +713,17 @@ func runRoundTrip(t *rapid.T, r *rec.Recorder) {
 	if nontrivial {
 		r.Label("nontrivial")
 	}
+}
+
+func runRoundTrip(t *rapid.T, r *rec.Recorder) {
+	c := baseChain()
+	ctx, _ := c.Ctx().CacheContext()
+	g := buildState(t, r, c, ctx)
+	gj, v := roundTrip(c, ctx, freshChain(), g.tolerance())
+	if v != nil {
+		t.Fatalf("%s\nstate:\n  %s", v, strings.Join(g.log, "\n  "))
+	}
+	g.record(gj)
 }
 
 func TestC13_RoundTrip(t *testing.T) {
